@@ -60,6 +60,14 @@ impl StreamPid {
         self.drv_f.borrow_mut().update()?;
         Ok(())
     }
+    /// every stateful part sees every event (the example's `?` chain would stop at the first part that reports the gap)
+    fn update_all(&mut self) {
+        let _ = self.int.borrow_mut().update();
+        let _ = self.drv.borrow_mut().update();
+        let _ = self.pro_f.borrow_mut().update();
+        let _ = self.int_f.borrow_mut().update();
+        let _ = self.drv_f.borrow_mut().update();
+    }
 }
 
 fn run_real(k: [f32; 3], sp: f32, events: &[Ev], times: &[i64]) -> (Vec<Obs>, Vec<Result<(), i32>>) {
@@ -173,26 +181,37 @@ pub fn check(s: &Scenario) -> CheckResult {
             ensure!(outs3[i].same(&want), "C04/scaling", "event {}: scaling setpoint and samples by 2^{} gives {:?}, expected exactly {:?}", i, s.scale, outs3[i], want);
         }
     }
-    // (iii) differential: the example's stream assembly, on all-present histories
+    // (iii) differential: the example's stream assembly. On all-present histories with the example's own update chain;
+    // on histories with gaps with every part updated on every event (an absent or errored input restarts the integral and
+    // the derivative of the assembly just as it restarts the controller); compared at the present samples.
     let all_present = !s.events.is_empty() && s.events.iter().all(|e| e.is_present());
-    if all_present {
+    if !s.events.is_empty() {
         let input = rc_ref_cell_reference(Scripted::<Quantity>::new());
         let mut sp = StreamPid::new(to_dyn!(Getter<Quantity, E>, input.clone()), s.setpoint, s.k);
         for (i, ev) in s.events.iter().enumerate() {
-            if let Ev::P(x, _) = ev {
-                input.borrow_mut().cur = Ok(Some(Datum::new(Time(times[i]), Quantity::new(*x, MILLIMETER))));
+            input.borrow_mut().cur = match ev {
+                Ev::P(x, _) => Ok(Some(Datum::new(Time(times[i]), Quantity::new(*x, MILLIMETER)))),
+                Ev::A => Ok(None),
+                Ev::E(e) => Err(mk_err(*e)),
+            };
+            if all_present {
+                let r = sp.update();
+                ensure!(r.is_ok(), "C04/assembled-update", "event {}: the stream-assembled controller failed to update: {:?}", i, r);
+            } else {
+                sp.update_all();
             }
-            let r = sp.update();
-            ensure!(r.is_ok(), "C04/assembled-update", "event {}: the stream-assembled controller failed to update: {:?}", i, r);
+            if !ev.is_present() {
+                continue;
+            }
             let got = sp.output.get();
             let (Ok(Some(d)), Obs::Some(t, v)) = (&got, &outs[i]) else {
-                return Err(Violation::new("C04/assembled-outcome", format!("event {}: assembled controller returns {:?}, PIDControllerStream {:?}", i, got, outs[i])));
+                return Err(Violation::new("C04/assembled-outcome", format!("event {}: assembled controller returns {:?}, PIDControllerStream {:?} (history {:?})", i, got, outs[i], &s.events[..=i])));
             };
             ensure!(d.time.0 == *t, "C04/assembled-time", "event {}: assembled controller stamped {:?}, PIDControllerStream {}", i, d.time, t);
             // both are within 4e of the reference, so within 8e of each other; recompute e cheaply from magnitudes
             let scale = (d.value as f64 - v[0] as f64).abs();
             let tol = 8.0 * reference_bound(s, &times, i);
-            ensure!(scale <= tol || !tol.is_finite(), "C04/assembled-value", "event {}: assembled controller gives {:e}, PIDControllerStream {:e} (allowed difference {:e})", i, d.value, v[0], tol);
+            ensure!(scale <= tol || !tol.is_finite(), "C04/assembled-value", "event {}: assembled controller gives {:e}, PIDControllerStream {:e} (allowed difference {:e}; history {:?})", i, d.value, v[0], tol, &s.events[..=i]);
         }
     }
     let kinds: Vec<u8> = s.events.iter().map(|e| e.kind_code()).collect();
@@ -224,6 +243,10 @@ fn reference_bound(s: &Scenario, times: &[i64], upto: usize) -> f64 {
             integral = if prev.is_some() { integral + int_add } else { R::ZERO };
             out = kp * err + ki * integral + kd * drv;
             prev = Some((times[i], err));
+        } else {
+            // an absent or errored input restarts the run
+            prev = None;
+            integral = R::ZERO;
         }
     }
     out.e
@@ -232,7 +255,7 @@ fn reference_bound(s: &Scenario, times: &[i64], upto: usize) -> f64 {
 pub struct C04;
 impl Property for C04 {
     const ID: &'static str = "C04";
-    const RULE: &'static str = "random gains/setpoint (finite, moderate, sign-mixed, zeros included) and histories of 1..64 events (present sample with strictly increasing time, dt log-uniform 1 us..3 h; absent; Err(1|2); weights 8:1:1 and an all-present family). Oracle: reference controller in f64 with a running f32 error bound (|out - ref| <= 4e), outcome/return value per event kind, exact time-shift invariance, exact 2^k scaling, and agreement with the controller assembled from the crate's own streams as in examples/pid.rs on all-present histories. Non-trivial = a segment of >= 3 present samples with unequal dt and ki, kd != 0; distinct = (event kinds, gains, setpoint, end time).";
+    const RULE: &'static str = "random gains/setpoint (finite, moderate, sign-mixed, zeros included) and histories of 1..64 events (present sample with strictly increasing time, dt log-uniform 1 us..3 h; absent; Err(1|2); weights 8:1:1 and an all-present family). Oracle: reference controller in f64 with a running f32 error bound (|out - ref| <= 4e), outcome/return value per event kind, exact time-shift invariance, exact 2^k scaling, and agreement with the controller assembled from the crate's own streams as in examples/pid.rs (all-present histories through the example's own update chain; histories with gaps with every part updated on every event, compared at the present samples). Non-trivial = a segment of >= 3 present samples with unequal dt and ki, kd != 0; distinct = (event kinds, gains, setpoint, end time).";
     type Scenario = Scenario;
     fn strategy(_tier: Tier) -> BoxedStrategy<Scenario> {
         let events = prop_oneof![
